@@ -901,6 +901,16 @@ def preimageFallback (trans target : Int) (rn : List (Key × Key)) (q : List Nat
     | (.error e, m3) => (.error e, m3)
     | (.ok r2, m3) => quantify r2 (q.map fun (i : Nat) => Key.lvl (i : Int)) forall_ m3
 
+/-- the test `fused` of `_preimage_of`: every `int` pair adjacent, `len(set(rename.values())) ==
+len(rename)`, and no value in `bdd.support(target, as_levels=True)` (evaluated only when the first
+two hold: `and` short-circuits; `support` may raise) -/
+def preimageFused (t : Tbl) (rn : List (Key × Key)) (target : Int) : Except Err Bool :=
+  if !renameNeighbors rn then .ok false else
+  if !((dedup (rn.map (·.2))).length == rn.length) then .ok false else
+  match supportLevels t target with
+  | .error e => .error e
+  | .ok s => .ok (s.all fun l => !(rn.map (·.2)).contains (Key.lvl (l : Int)))
+
 /-- `_preimage_of(bdd, trans, target, rename, qvars, forall)`: the decorated body -/
 def preimageBody (trans target : Int) (rn : List (Key × Key)) (qvars : List Key) (forall_ : Bool) : M Int :=
   fun m =>
@@ -911,7 +921,11 @@ def preimageBody (trans target : Int) (rn : List (Key × Key)) (qvars : List Key
     match assertValidRename rn m with
     | (.error e, m1) => (.error e, m1)
     | (.ok _, m1) =>
-      if renameNeighbors rn then
+      match preimageFused m1.tbl rn target with
+      | .error e => (.error e, m1)
+      | .ok fused =>
+      if fused then
+        -- the fused recursion: renames `target` on the fly
         match imageF none (some (intPairs rn)) [] (badKeys rn) q forall_ (2 * m.nvars + 4)
             trans target {} m1 with
         -- every call of `_image` either moves down in `u` or in `v`, or calls itself with the same
